@@ -20,6 +20,9 @@ CASES = [
     ('isTypeAhead.name_followed_by_name_is_a_declaration', 'class P { public int v; public constructor(int v) -> P { this.v = v; return this; } }\nfunction main() -> void { P p = new P(3); echo(p.v); }\n', True),
     ('isTypeAhead.only_type_keywords_and_identifiers_can_start_one', 'function main() -> void { int[] a = {1, 2}; a[0] = 5; echo(a[0]); int i = 0; i = i + 1; echo(i); }\n', True),
     ('isTypeAhead.skipTypeArgs.moves_only_onto_a_closing_angle', 'class Box<T> { public T v; public constructor(T v) -> Box<T> { this.v = v; return this; } }\nfunction main() -> void { Box<int> b = new Box<int>(4); int x = 1; boolean c = x < 2; echo(b.v); echo(c); }\n', True),
+    ('parseType.array_size.value_is_the_literals', 'function main() -> void { int[3] a; a[2] = 7; echo(a[2]); }\n', True),
+    ('parseType.array_size.too_large_a_literal_is_reported', 'function main() -> void { int[99999999999] a; echo(1); }\n', False),
+    ('parseType.array_size.too_large_a_literal_is_reported', 'function f(int[2147483648] p) -> void { }\nfunction main() -> void { }\n', False),
     ('parseAnnotations.unknown_annotation_is_rejected', 'function main() -> void { @bogus qubit q; }\n', False),
     ('parseAnnotations.unknown_annotation_is_rejected', '@bogus\nfunction main() -> void { }\n', False),
     ('parseAnnotations.unknown_annotation_is_rejected', K % '@bogus public function f() -> void { }' + 'function main() -> void { }\n', False),
@@ -32,7 +35,7 @@ def main():
         if ok and (rc != 0 or perr):
             fails += 1; print('FAIL label=%s program=%s detail=a documented annotation was not accepted: %r' % (label, json.dumps(src), out.strip()[-120:]))
         if not ok and (rc == 0 or perr != 1):
-            fails += 1; print('FAIL label=%s program=%s detail=an unknown annotation must be exactly one Parse diagnostic: exit %d %r' % (label, json.dumps(src), rc, out.strip()[-120:]))
+            fails += 1; print('FAIL label=%s program=%s detail=must be rejected with exactly one Parse diagnostic: exit %d %r' % (label, json.dumps(src), rc, out.strip()[-120:]))
     print(json.dumps(dict(oracle_checks=len(CASES), oracle_failures=fails)))
     sys.exit(1 if fails else 0)
 main()
